@@ -722,9 +722,11 @@ theorem symLoop_fine (k : Chmod.EKind) (f mode : Nat) (cs : List Char) :
   | succ f ih =>
     by_cases hcs : cs = []
     · subst hcs; unfold Chmod.symLoop; exact fine_ok _
-    · rcases symLoop_succ_cases k f mode cs hcs with ⟨e, he⟩ | he | ⟨_, _, _, _, _, _, _, _, _, _, _, _, he⟩
+    · rcases symLoop_succ_cases k f mode cs hcs with ⟨e, he⟩ | he |
+        ⟨_, _, _, _, _, _, _, _, _, _, _, _, he⟩ | ⟨_, he⟩
       · rw [he]; exact fine_err _
       · rw [he]; exact fine_ok _
+      · rw [he]; exact ih _ _
       · rw [he]; exact ih _ _
 
 theorem chmodMode_fine (k : Chmod.EKind) (cur octal : Nat) (sym : List Char) :
